@@ -227,6 +227,23 @@ AsymCases == {Mk("C09/asym/" \o USName(UseSets[i]) \o "-" \o USName(UseSets[j]) 
                      body == <<PrintS(<<ACall("a", "A", <<I(1)>>), ACall("b", "B", <<I(2)>>)>>)>> \o (IF dir = "nodirect" THEN <<>> ELSE <<Print1(ACall("d", "F2", <<I(3)>>))>>)
                  IN <<F("main.tsh", imps, body, "letter"), fa, fb, fx>>)
               : i \in 1..Len(UseSets), j \in 1..Len(UseSets), ord \in {"ab", "ba"}, dir \in {"nodirect", "xfirst", "xlast"}}
+\* a project's OWN file named like a file of the bundled library (strings.tsh, os.tsh), imported by its relative path under an alias: the file next to the importing
+\* file wins, the library is only the fallback for a path that does not exist there (round 11: the library was looked up first) - alone, next to the real library
+\* import, and from a file in the middle of a chain
+OwnStr == <<Func("Twice", <<Param("s", "string")>>, <<"string">>, <<RetS(<<Bin("+", Var("s"), Var("s"))>>)>>), Func("Contains", <<Param("s", "string"), Param("t", "string")>>, <<"string">>, <<RetS(<<StrL("own Contains")>>)>>)>>
+OwnOs == <<Func("Shell", <<>>, <<"string">>, <<RetS(<<StrL("local-shell")>>)>>), Func("Home", <<>>, <<"string">>, <<RetS(<<StrL("/home/own")>>)>>)>>
+ShadowStd ==
+  {Mk("C09/ownfile/strings-alone", "letter", <<F("main.tsh", <<Imp("m", "strings.tsh")>>, <<PrintS(<<ACall("m", "Twice", <<StrL("ab")>>), ACall("m", "Contains", <<StrL("a"), StrL("b")>>)>>)>>, "letter"), F("strings.tsh", <<>>, OwnStr, "letter")>>),
+   Mk("C09/ownfile/os-alone", "letter", <<F("main.tsh", <<Imp("myos", "os.tsh")>>, <<PrintS(<<ACall("myos", "Shell", <<>>), ACall("myos", "Home", <<>>)>>)>>, "letter"), F("os.tsh", <<>>, OwnOs, "letter")>>),
+   Mk("C09/ownfile/strings-in-chain", "letter", <<F("main.tsh", <<Imp("g", "greet.tsh")>>, <<Print1(ACall("g", "Hello", <<StrL("x")>>))>>, "letter"),
+                                                    F("greet.tsh", <<Imp("mystr", "strings.tsh")>>, <<Func("Hello", <<Param("n", "string")>>, <<"string">>, <<RetS(<<Bin("+", StrL("hello "), ACall("mystr", "Twice", <<Var("n")>>))>>)>>)>>, "letter"),
+                                                    F("strings.tsh", <<>>, OwnStr, "letter")>>),
+   Mk("C09/ownfile/strings-in-subdir", "letter", <<F("main.tsh", <<Imp("m", "lib/strings.tsh")>>, <<Print1(ACall("m", "Twice", <<StrL("q")>>))>>, "letter"), F("lib/strings.tsh", <<>>, OwnStr, "letter")>>),
+   MkM("C09/ownfile/strings-next-to-std", "letter",
+       <<F("main.tsh", <<Imp("", "strings"), Imp("m", "strings.tsh")>>, <<PrintS(<<ACall("strings", "Repeat", <<StrL("ab"), I(2)>>), ACall("m", "Twice", <<StrL("cd")>>), ACall("strings", "Contains", <<StrL("abc"), StrL("b")>>), ACall("m", "Contains", <<StrL("a"), StrL("b")>>)>>)>>, "letter"),
+         F("strings.tsh", <<>>, OwnStr, "letter")>>,
+       <<F("main.tsh", <<Imp("m", "strings.tsh")>>, <<PrintS(<<StrL(GS!Repeat("ab", 2)), ACall("m", "Twice", <<StrL("cd")>>), BoolL(GS!Contains("abc", "b")), ACall("m", "Contains", <<StrL("a"), StrL("b")>>)>>)>>, "letter"),
+         F("strings.tsh", <<>>, OwnStr, "letter")>>)}
 Neg == NegH("digit") \cup LibNeg \cup AliasNeg
-ASSUME ndJsonSerialize("fam.ndjson", SetToSeq(S1 \cup S2 \cup S3 \cup S4 \cup S4b \cup S5 \cup S6 \cup S7 \cup S8 \cup AllGraphs \cup SiteCases \cup ChainDepth \cup AsymCases \cup Neg))
+ASSUME ndJsonSerialize("fam.ndjson", SetToSeq(S1 \cup S2 \cup S3 \cup S4 \cup S4b \cup S5 \cup S6 \cup S7 \cup S8 \cup AllGraphs \cup SiteCases \cup ChainDepth \cup AsymCases \cup ShadowStd \cup Neg))
 =============================================================================
